@@ -397,7 +397,7 @@ impl Property for ProgProp {
         }
     }
     fn replay_custom(&self, payload: &Value) -> Result<(), Failure> {
-        let t = Tapes { a: unhex(payload["a"].as_str().unwrap_or("")), b: unhex(payload["b"].as_str().unwrap_or("")), c: unhex(payload["c"].as_str().unwrap_or("")) };
+        let t = Tapes { a: unhex(payload["a"].as_str().unwrap_or("")), b: unhex(payload["b"].as_str().unwrap_or("")), c: unhex(payload["c"].as_str().unwrap_or("")), small: false };
         let mut st = Stats::default();
         self.run_single(&t, &mut st)
     }
